@@ -1048,10 +1048,19 @@ func checkC08(w *World, r *Report) {
 		extSig := w.ByPath[modPath+"/types"].Types.Scope().Lookup("ExternalCall").Type().Underlying().(*types.Signature)
 		ntr := 0
 		seenT := map[*ssa.Function]bool{}
+		var troots []*ssa.Function
 		for _, root := range w.registeredFuncs() {
-			if !strings.HasPrefix(fnPkgPath(root), modPath+"/lib/") {
-				continue
+			if strings.HasPrefix(fnPkgPath(root), modPath+"/lib/") {
+				troots = append(troots, root)
 			}
+		}
+		// ... nor does the evaluator itself (a definition that stores a wrapper instead of the closure)
+		for _, f := range w.Funcs {
+			if f.Pkg == m.EVAL.Pkg && f.Parent() == nil && !isTestFunc(w, f) {
+				troots = append(troots, f)
+			}
+		}
+		for _, root := range troots {
 			for _, f := range w.withPkgHelpers(root) {
 				for _, g := range append([]*ssa.Function{f}, allAnon(f)...) {
 					if seenT[g] {
@@ -1179,6 +1188,13 @@ func checkC12(w *World, r *Report) {
 			}
 		}
 	}
+	// the macro test reads the scope chain while other evaluations define names in it: every table of the chain is
+	// read under the lock of the scope it belongs to (an unguarded read of a table being written aborts the process)
+	// "defmacro binds a macro in the current scope": the scope rules of the evaluator (shared with C01.scope)
+	r.rule("C12.defining-scope", "defmacro (like def) writes its binding into the current scope, never into a scope found by looking the name up: a macro defined inside a function or let does not replace a binding of the same name further out (shared with C01.scope)")
+	ruleScope(m, r, "C12.defining-scope")
+	r.rule("C12.macro-lookup-guard", "every access to a scope's table of bindings - the macro test's Find included - is made while the mutex of that very scope is held (or on a scope not yet shared): shared with C11.data")
+	guardRule(w, r, e, "C12.macro-lookup-guard", w.guardRows()[2])
 	r.rule("C12.copy", "a function value rebuilt field by field from an existing one (with-meta and the like) accounts for every field of MalFunc, so the macro flag, the scope builder and the evaluator travel with the copy")
 	partialCopyRule(w, r, "C12.copy", "MalFunc")
 	r.rule("C12.flag", "defmacro binds the result of SetMacro (a value-receiver method setting IsMacro on its copy) applied to the evaluated function; fn builds IsMacro:false; the macro test is true only through GetMacro; the application region never looks at the macro flag")
@@ -2431,6 +2447,9 @@ func engineRule(w *World, r *Report, e *Engine) {
 	// errors the program goes on to raise)
 	printPureRule(w, r, "C18.print-pure")
 	undoAlwaysRunsRule(w, r, "C18.undo")
+	if mm := newEvalModel(w, e); mm.ok {
+		frameBlindRule(mm, r, "C18.frame-blind")
+	}
 	r.rule("C18.position-intact", "the repository's debugger engine writes no field of a Position it did not allocate itself: what it displays about a form's position is computed on copies, so the errors of the debugged program name the same module and rows as without a stepper")
 	npw := positionWrites(w, r, e, "C18.position-intact", func(fn *ssa.Function) bool { return strings.HasSuffix(fnPkgPath(fn), "/debugger") })
 	r.add("C18.position-intact", nil, "writes to Position fields in package debugger", token.NoPos, "ok", fmt.Sprintf("%d examined", npw))
@@ -3683,4 +3702,65 @@ func undoAlwaysRunsRule(w *World, r *Report, rule string) {
 		}
 	}
 	r.add(rule, nil, "undo functions obtained by the debugger", token.NoPos, "ok", fmt.Sprintf("%d found", n))
+}
+
+// frameBlindRule: under a stepper every tail step is an activation of EVAL of its own, without one the tail steps
+// of a function body are iterations of one activation. What an activation does once - on entry or in a deferred
+// function - therefore happens once per tail step with a stepper and once per chain without: it must not touch
+// what EVAL answers.
+func frameBlindRule(m *evalModel, r *Report, rule string) {
+	r.rule(rule, "no function deferred by EVAL outside its stepping code assigns EVAL's results (value or error): what EVAL answers does not depend on how many activations the tail steps of a body are spread over (one with the loop, one per step under a stepper)")
+	// the cells of EVAL's named results: locals whose loads feed its returns
+	results := map[*ssa.Alloc]bool{}
+	for _, b := range m.EVAL.Blocks {
+		if len(b.Instrs) == 0 {
+			continue
+		}
+		ret, ok := b.Instrs[len(b.Instrs)-1].(*ssa.Return)
+		if !ok {
+			continue
+		}
+		for _, v := range ret.Results {
+			if ld, ok := v.(*ssa.UnOp); ok && ld.Op == token.MUL {
+				if al, ok := ld.X.(*ssa.Alloc); ok {
+					results[al] = true
+				}
+			}
+		}
+	}
+	n := 0
+	for _, b := range m.EVAL.Blocks {
+		for _, in := range b.Instrs {
+			d, ok := in.(*ssa.Defer)
+			if !ok {
+				continue
+			}
+			n++
+			if m.stepBlocks[b] {
+				r.ok(rule, m.EVAL, "deferred function", d.Pos(), "stepping code (C18.effects)")
+				continue
+			}
+			mc, ok := d.Call.Value.(*ssa.MakeClosure)
+			if !ok {
+				r.ok(rule, m.EVAL, "deferred function", d.Pos(), "captures nothing of EVAL")
+				continue
+			}
+			fn := mc.Fn.(*ssa.Function)
+			writes := token.NoPos
+			found := false
+			for i, fv := range fn.FreeVars {
+				al, isAl := mc.Bindings[i].(*ssa.Alloc)
+				if !isAl || !results[al] {
+					continue
+				}
+				for _, ref := range *fv.Referrers() {
+					if st, ok := ref.(*ssa.Store); ok && st.Addr == ssa.Value(fv) {
+						writes, found = st.Pos(), true
+					}
+				}
+			}
+			r.check(!found, rule, m.EVAL, "deferred function", d.Pos(), "leaves EVAL's results alone", "the function deferred here assigns a result of EVAL ("+m.w.pos(writes)+") once per activation: with the loop that is once per chain of tail steps, under a stepper once per tail step, so the program ends with another value or error when it is stepped")
+		}
+	}
+	r.add(rule, m.EVAL, "functions deferred by EVAL", token.NoPos, "ok", fmt.Sprintf("%d defers examined", n))
 }
